@@ -254,3 +254,23 @@ let fam_ratec () =
   out_qs r
 
 let () = families := !families @ [ ("ratec", fam_ratec) ]
+
+(* vsem kind L nops {op args}* : the object-level model; prints the same per-operation tokens as the harness *)
+let fam_vsem () =
+  let _kind = int () in let _l = int () in let nops = int () in
+  let ops = times nops (fun () ->
+    match int () with
+    | 0 -> OGet (nat ())
+    | 1 -> let i = nat () in let j = nat () in OCopyC (i, j)
+    | 2 -> let i = nat () in let j = nat () in OCopyA (i, j)
+    | 3 -> let i = nat () in let j = nat () in OMoveC (i, j)
+    | 4 -> let i = nat () in let j = nat () in OMoveA (i, j)
+    | 5 -> let i = nat () in let v = nat () in OSet (i, v)
+    | 6 -> OSolve (nat ())
+    | _ -> OSMove) in
+  List.iter (fun tk -> out (match tk with
+    | TkGet -> "g" | TkCC -> "cc" | TkCA -> "ca" | TkMC -> "mc" | TkMA -> "ma" | TkSet -> "s"
+    | TkSolve _ -> "S" | TkSMove -> "M" | TkSkip -> "-" | TkUB -> "UB"))
+    (vrun copy_fixed (store0 (nat_of_int 4)) ops)
+
+let () = families := !families @ [ ("vsem", fam_vsem) ]
